@@ -36,6 +36,7 @@ void hx_random_op(struct hx *h, unsigned mask, struct hx_result *res);
 hwloc_obj_t hx_pick_obj(struct hx *h, int need_sets);
 /* random printable string with XML-hostile characters */
 void hx_rand_string(struct hv_rng *r, char *buf, size_t maxlen, int allow_empty);
+extern int hx_whitespace_controls;   /* opt-in: TAB/LF/CR inside generated names and info values */
 
 /* apply `nops` successful-or-not annotating operations (Misc, infos, subtypes, distances, memattrs, cpukinds): used to derive
  * feature-rich topologies for the carrier properties (C05, C12, C19) */
